@@ -25,6 +25,7 @@ EXPLANATION = (
     "all names/blank/case spellings) is matched by SUBCALL_RE or CALL_RE. Exactness of the recorded "
     "set on every executable part is not decided."
     ' R5: EXTERNAL declarations are handled before variables are matched, and `;` splitting is exact (shared with C02.R3). R2 is decided on the event trace of _add_procedure_calls, so one combined filter test and several early `continue`s are the same thing.'
+    " Added after waves 6/7 - the CALL_RE clause is a language inclusion; protected variables are exported so their element references resolve."
 )
 ASSUMPTIONS = ["identifiers are [A-Za-z][A-Za-z0-9_]*; statement labels are 1-5 digits"]
 
@@ -99,8 +100,15 @@ def r1_not_scanned(ctx, rep):
     rep.ob("masked-literal placeholder cannot start a call match", w is None,
            r'L(\w+\s*\() and L(\d+" .*) are disjoint: text of a character literal (masked as "N") is never read as a reference'
            if w is None else f"witness {w!r}", py.nloc(node))
-    ok = r"\w+\s*\(" in pat.replace(" ", "").replace("\n", "") or re.search(r"\\w\+\\s\*\\\(", pat) is not None
-    rep.ob("CALL_RE requires name followed by '('", ok, "", py.nloc(node), nontrivial=False)
+    # every match contains a name directly followed (blanks aside) by an opening parenthesis: L(CALL_RE) is included in
+    # .*\w\s*\(.*  (decided on the language, so `\(`, `[(]` and verbose layouts are the same thing)
+    try:
+        w_ = rx.subset_witness(rx.full(pat, flags), rx.full(r".*\w\s*\(.*", 0))
+    except rx.Unsupported as e_:
+        raise AnalysisError(f"CALL_RE not understood: {e_}")
+    ok = w_ is None
+    rep.ob("CALL_RE requires name followed by '('", ok, "" if ok else f"`{w_}` matches without a name followed by '('", py.nloc(node),
+           nontrivial=False)
     # masking dominates the chain (shared with C02.R4)
     pre = [type(s).__name__ for s in cs.pre]
     wl = [s for s in cs.pre if isinstance(s, ast.While) and "QUOTES_RE" in ast.unparse(s)]
@@ -345,6 +353,13 @@ def r6_association_scoping_and_pushback(ctx, rep):
            "reordered (an END can overtake a CALL, which is then recorded for no one)", py.nloc(pb))
 
 
+def r6_protected_arrays_resolve(ctx, rep):
+    """an element reference of a use-associated array is dropped from the calls only if the array can be resolved; PROTECTED
+    variables are exported like public ones (shared with C06.R2)"""
+    from . import c06
+    c06.r2_public_only(ctx, rep)
+
+
 RULES = [
     RuleSpec("C08.R5", r5_external_and_semicolons, "EXTERNAL handling order; exact `;` splitting (shared with C02.R3)", floor=2),
     RuleSpec("C08.R1", r1_not_scanned, "statements that must not be scanned", floor=15),
@@ -352,4 +367,5 @@ RULES = [
     RuleSpec("C08.R3", r3_keyword_table, "keyword table", floor=21),
     RuleSpec("C08.R4", r4_call_forms, "call statement forms are recognised", floor=4),
     RuleSpec("C08.R6", r6_association_scoping_and_pushback, "ASSOCIATE scoping and statement order on ;-lines", floor=3),
+    RuleSpec("C08.R6", r6_protected_arrays_resolve, "protected variables are exported, so their element references resolve (shared with C06.R2)", floor=7),
 ]
